@@ -147,6 +147,25 @@ start :: fn do
     pr(use_it(Foo { f: fn v: int -> int do ret v + 1 end, n: 2 }))
 end
 ''',
+"annotation_on_an_unrelated_function": '''
+describe :: fn q: Shape -> do
+    q
+end
+Pen :: blob {
+    width: fn int -> int,
+}
+Shape :: blob {
+    pen: Pen,
+}
+stroke :: fn s: Shape -> int do
+    ret s.pen.width(2)
+end
+start :: fn do
+    s := Shape { pen: Pen { width: fn w: int -> int do ret w * 2 end } }
+    describe(s)
+    pr(stroke(s))
+end
+''',
 "qualified_type_paths": '''
 use shapes
 use shapes as sh
@@ -198,11 +217,14 @@ def run(tier):
     for r in results:
         if r["status"] != "ok": fnd.undecided("%s: %s %s" % (r["name"], r["status"], r.get("why", "")[:400])); continue
         for k in tot: tot[k] += r[k]
+        # rejected subsets: reported once per template, identified by the smallest set of absent annotations that is rejected
+        rej = sorted((sorted(k for k, v in b["ann"].items() if v == "absent") for b in r["bad"] if b["kind"] == "rejected"), key=lambda a: (len(a), a))
+        if rej:
+            absent = rej[0]
+            fnd.report("annotation-changes-acceptance:%s:absent=%s" % (r["name"], "+".join(absent) or "none"), "template %s is rejected when the annotation sites %s are absent and the others present (%d of %d subsets are rejected)" % (r["name"], absent or "(none: all annotations present)", len(rej), r["paths"]), {"template.sy": TEMPLATES[r["name"]]})
         for b in r["bad"]:
-            if b["kind"] == "rejected":
-                absent = sorted(k for k, v in b["ann"].items() if v == "absent")
-                fnd.report("annotation-changes-acceptance:" + r["name"], "template %s is rejected (%s) when the annotation sites %s are absent and the others present" % (r["name"], b.get("phase"), absent), {"template.sy": TEMPLATES[r["name"]]})
-            elif b["kind"] == "ir_differs":
+            if b["kind"] == "rejected": continue
+            if b["kind"] == "ir_differs":
                 fnd.report("annotation-changes-code:" + r["name"], "template %s: the IR differs between annotation subsets %s and %s" % (r["name"], b["ann"], b["ann2"]), {"template.sy": TEMPLATES[r["name"]]})
             else: fnd.report("panic:" + r["name"], "template %s panics (%s) with %s" % (r["name"], b["what"], b["ann"]), {"template.sy": TEMPLATES[r["name"]]})
         if len(samples) < 4: samples.append({"template": r["name"], "annotation_sites": r["sites"], "subsets_explored": r["paths"], "distinct_ir": r["distinct_ir"]})
